@@ -1118,12 +1118,26 @@ def run(ctx):
     except facts.TieBroken as e:
         tie = 'fact extraction failed: %s' % e
     if tie is None:
+        # tie to the source: the command bodies of pyhf/cli/*.py translated to coq/gen/CliGen.v (harness/props/c19_tie.py)
+        try:
+            from harness.props import c19_tie
+            ctx.coverage['translated_from_source'] = c19_tie.extract(ctx)
+        except facts.TieBroken as e:
+            tie = ('translation of the command bodies of pyhf/cli/*.py to Gallina failed (harness/props/c19_tie.py; a command no longer has the dataflow shape '
+                   'the model of coq/Cli.v / coq/TieCli.v transcribes): %s' % e)
+    if tie is None:
         ok, txt = core.prove(ctx)
         if not ok:
-            tie = 'proof obligations of props/C19.v no longer check: ' + txt[-1000:]
+            why = ('the command bodies translated from pyhf/cli/*.py no longer coincide with the hand model (coq/TieCli.v, C19_source_is_model_*): '
+                   if ('TieCli' in txt or 'source_is_model' in txt or 'CliGen' in txt) else 'proof obligations of props/C19.v no longer check: ')
+            tie = why + txt[-1000:]
             if table is not None and any(not p['used'] for p in table):
                 tie = 'option parsed but never used by the command body: %r; ' % [[p['cmd'], p['param']] for p in table if not p['used']] + tie
-    ctx.trusted += ['harness/props/c19.py: extractor (python ast -> FactsC19.v), cross-checked against click\'s own parameter tables at run time; '
+    ctx.trusted += ['harness/props/c19_tie.py + harness/props/tie_translate.py / tie_translate_x4.py (python ast -> Gallina for the bodies of fit, cls, prune, rename, '
+                    'combine, digest, sort, patchset extract / apply / verify / inspect, xml2json, json2xml; fail closed; the library calls are opaque functions whose '
+                    'arguments are bound against the signatures read from the library source; reading stated in coq/gen/CliGen.v; `pyhf inspect` is not translated): '
+                    'C19_source_is_model_* prove every translated command equal to the hand model',
+                    'harness/props/c19.py: extractor (python ast -> FactsC19.v), cross-checked against click\'s own parameter tables at run time; '
                     'the dataflow is syntactic and conservative (weak updates): "consumed" is a necessary condition, the values are checked by the differential run',
                     'click (option parsing, CliRunner), json, yaml, jsonpatch are not modelled',
                     'toybased hypotest is run with 24 toys and a fixed numpy seed on both sides (ToyCalculator.__init__ wrapped by the harness)']
